@@ -549,6 +549,20 @@ def make_world(variant=1):
     for i, prev in ((2, "a2"), (3, "p2")):
         add("MP%d" % i, "tab", [[S("__index"), T(prev)], [S("__newindex"), T(prev)]])
         add("p%d" % i, "tab", [[S("own"), ["n", i]]], mt=names["MP%d" % i])
+    # traversal tables: array part plus hash keys of every kind, in several insertion orders -
+    # fractional numbers, negative numbers, zero, numbers beyond the array part, booleans incl.
+    # false, strings that look like numbers
+    X = lambda f: ["x", f]
+    arr = [[["n", i], S("a%d" % i)] for i in (1, 2, 3)]
+    mixed = [[X("1.5"), S("f15")], [X("0.5"), S("f05")], [["n", -1], S("neg")], [["n", 0], S("zero")], [["n", 100], S("far")],
+             [["n", 67108865], S("huge")], [["b", True], S("t")], [["b", False], S("f")], [S("1"), S("s1")],
+             [S("1.5"), S("s15")], [X("-2.5"), S("fneg")], [X("2.5"), S("f25")], [X("3.5"), S("f35")]]
+    add("tr1", "tab", arr + mixed)
+    add("tr2", "tab", list(reversed(mixed)) + arr)
+    add("tr3", "tab", [[X("0.5"), S("a")], [X("1.5"), S("b")], [X("2.5"), S("c")], [S("x"), S("d")]])      # no array part
+    add("tr4", "tab", arr[:2] + [[X("1.5"), S("only")]])
+    add("tr5", "tab", [[X("2.5"), S("first")]] + arr + [[X("7.25"), S("last")], [S("k"), S("v")]])
+    add("tr6", "tab", arr + [[X("3.5"), S("edge")], [X("4.5"), S("past")]])
     # userdata
     add("ua1", "ud", mt=names["MA"])
     add("ue1", "ud", mt=names["ME"])
@@ -651,9 +665,14 @@ def obj_cases(world, names, tier, rng, w=1, cases=None):
             add("ObjLen", [v])
         if v[0] == "u" and any(kv[0] == S("__len") for kv in heap[heap[v[1] - 1]["mt"] - 1]["kv"] if heap[v[1] - 1]["mt"]):
             add("ObjLen", [v])
-    for o in objs:
+    for o in objs + [["t", names["tr%d" % i]] for i in range(1, 7)]:
         if o[0] != "t":
             continue
+        add("ForEachWalk", [o])
+        # a key that is not a field of the table is an invalid key to next
+        for k in (S("nokey"), ["n", 7], ["x", "9.5"], ["b", True], ["b", False], ["n", 0], ["n", -5], ["t", names["empty"]]):
+            if not any(kv[0] == k for kv in heap[o[1] - 1]["kv"]):
+                add("Next", [o, k])
         add("NextWalk", [o])
         add("Next", [o, NIL])
         for kv in heap[o[1] - 1]["kv"]:
@@ -704,6 +723,8 @@ def obj_key(world, rec, v):
         kinds[0] = "object+mt" if kinds[0] in ("table+mt", "userdata+mt") else kinds[0]
         if v["why"] != "result" and len(kinds) > 1 and kinds[1].startswith("'"):
             kinds[1] = "string"
+    if op == "Next" and v["why"] == "err":
+        kinds = ["absent-key"]        # next(t, k) with a k that is not a field of t
     if op in ("GetGlobal", "SetGlobal"):
         kinds = ["gmt=%s" % ("none" if not rec["gmt"] else "handlers")]
     if op in ("GetMetatable", "RawMetatable", "ProtectedSet"):
